@@ -29,6 +29,9 @@ type Parser struct {
 	// lineComment holds an indented comment line met by parsePosting until
 	// parseTransaction attaches it to the transaction or the posting above it.
 	lineComment *ast.Comment
+	// prevEnd is where the last token that carries text ended (line ends and
+	// indents do not count): the end of whatever construct is being closed.
+	prevEnd Position
 }
 
 func Parse(input string) (*ast.Journal, []ParseError) {
@@ -167,7 +170,7 @@ func (p *Parser) parseTransaction() *ast.Transaction {
 		}
 	}
 
-	tx.Range.End = toASTPosition(p.current.Pos)
+	tx.Range.End = toASTPosition(p.prevEnd)
 	return tx
 }
 
@@ -328,7 +331,7 @@ func (p *Parser) parsePosting() *ast.Posting {
 		p.advance()
 	}
 
-	posting.Range.End = toASTPosition(p.current.Pos)
+	posting.Range.End = toASTPosition(p.prevEnd)
 	return posting
 }
 
@@ -419,7 +422,7 @@ func (p *Parser) parseAmount() *ast.Amount {
 		}
 	}
 
-	amount.Range.End = toASTPosition(p.current.Pos)
+	amount.Range.End = toASTPosition(p.prevEnd)
 	return amount
 }
 
@@ -437,7 +440,7 @@ func (p *Parser) parseCost() *ast.Cost {
 		return nil
 	}
 	cost.Amount = *amount
-	cost.Range.End = toASTPosition(p.current.Pos)
+	cost.Range.End = toASTPosition(p.prevEnd)
 	return cost
 }
 
@@ -455,7 +458,7 @@ func (p *Parser) parseBalanceAssertion() *ast.BalanceAssertion {
 		return nil
 	}
 	ba.Amount = *amount
-	ba.Range.End = toASTPosition(p.current.Pos)
+	ba.Range.End = toASTPosition(p.prevEnd)
 	return ba
 }
 
@@ -502,7 +505,7 @@ func (p *Parser) parseAccountDirective(startPos Position) ast.Directive {
 	dir := ast.AccountDirective{
 		Account: ast.Account{
 			Name:  accountName,
-			Range: ast.Range{Start: toASTPosition(accountPos)},
+			Range: ast.Range{Start: toASTPosition(accountPos), End: toASTPosition(p.prevEnd)},
 		},
 		Range: ast.Range{Start: toASTPosition(startPos)},
 	}
@@ -518,7 +521,7 @@ func (p *Parser) parseAccountDirective(startPos Position) ast.Directive {
 	}
 
 	dir.Subdirs = p.parseSubdirectives()
-	dir.Range.End = toASTPosition(p.current.Pos)
+	dir.Range.End = toASTPosition(p.prevEnd)
 
 	return dir
 }
@@ -580,7 +583,7 @@ func (p *Parser) parseCommodityDirective(startPos Position) ast.Directive {
 		dir.Note = note
 	}
 
-	dir.Range.End = toASTPosition(p.current.Pos)
+	dir.Range.End = toASTPosition(p.prevEnd)
 	return dir
 }
 
@@ -603,7 +606,7 @@ func (p *Parser) parseIncludeDirective(startPos Position) ast.Directive {
 		Path:  pathStr,
 		Range: ast.Range{Start: toASTPosition(startPos)},
 	}
-	inc.Range.End = toASTPosition(p.current.Pos)
+	inc.Range.End = toASTPosition(p.prevEnd)
 	p.skipToNextLine()
 	return inc
 }
@@ -639,7 +642,7 @@ func (p *Parser) parsePriceDirective(startPos Position) ast.Directive {
 	}
 	dir.Price = *price
 
-	dir.Range.End = toASTPosition(p.current.Pos)
+	dir.Range.End = toASTPosition(p.prevEnd)
 	p.skipToNextLine()
 	return dir
 }
@@ -731,7 +734,7 @@ func (p *Parser) parseDefaultCommodityDirective(startPos Position) ast.Directive
 		}
 	}
 
-	dir.Range.End = toASTPosition(p.current.Pos)
+	dir.Range.End = toASTPosition(p.prevEnd)
 	p.skipToNextLine()
 	return dir
 }
@@ -756,7 +759,7 @@ func (p *Parser) parseYearDirective(startPos Position) ast.Directive {
 		Range: ast.Range{Start: toASTPosition(startPos)},
 	}
 	p.advance()
-	dir.Range.End = toASTPosition(p.current.Pos)
+	dir.Range.End = toASTPosition(p.prevEnd)
 	p.skipToNextLine()
 	return dir
 }
@@ -843,6 +846,11 @@ func isValidTagName(name string) bool {
 }
 
 func (p *Parser) advance() {
+	switch p.current.Type {
+	case TokenNewline, TokenIndent, TokenEOF:
+	default:
+		p.prevEnd = p.current.End
+	}
 	p.current = p.lexer.Next()
 }
 
